@@ -217,6 +217,17 @@ class FatPath:
             raise IsADirectoryError(lang._(
                 'Is a directory: {self}'.format(self=self)))
 
+    def _must_be_named(self):
+        """
+        Internal method which is called to check that the final component of a
+        constructed path is a name, not a "." or ".." reference. An entry can
+        only be created, removed or moved under a name: the "." and ".."
+        entries belong to the directory that holds them.
+        """
+        if self.name in ('.', '..'):
+            raise ValueError(lang._(
+                'invalid name {str_self!r}'.format(str_self=str(self))))
+
     def open(self, mode='r', buffering=-1, encoding=None, errors=None,
              newline=None):
         """
@@ -272,6 +283,7 @@ class FatPath:
             # If self._entry is None at this point, we're creating a file so
             # get the containing index and make an appropriate DirectoryEntry
             if self._entry is None:
+                self._must_be_named()
                 date, time, cs = encode_timestamp(dt.datetime.now(tz=fs.tz))
                 parent = self.parent
                 parent._must_exist()
@@ -395,6 +407,7 @@ class FatPath:
                 if self._entry is None:
                     raise OSError(errno.EACCES, lang._(
                         'Cannot rename the root directory'))
+                self._must_be_named()
                 # Compare identities, not spellings: an ancestor of the target
                 # may name this directory in another case or by its 8.3 alias
                 source_cluster = get_cluster(self._entry, fs.fat_type)
@@ -491,6 +504,7 @@ class FatPath:
                     return
                 else:
                     raise
+            self._must_be_named()
             parent = self.parent
             try:
                 parent._must_exist()
@@ -562,6 +576,7 @@ class FatPath:
             if cluster == 0:
                 raise OSError(errno.EACCES, lang._(
                     'Cannot remove the root directory'))
+            self._must_be_named()
             for item in self.iterdir():
                 raise OSError(errno.ENOTEMPTY, os.strerror(errno.ENOTEMPTY))
 
